@@ -33,7 +33,13 @@ impl Socket for Stream {
     fn split(self) -> (Self::ReadHalf, Self::WriteHalf) {
         let (read, write) = self.0.into_split();
 
-        (ReadHalf(read), WriteHalf(write))
+        (
+            ReadHalf(read),
+            WriteHalf {
+                half: write,
+                written: 0,
+            },
+        )
     }
 }
 
@@ -55,16 +61,22 @@ impl socket::ReadHalf for ReadHalf {
 
 /// The [`WriteHalf`] implementation using Unix Domain Sockets.
 #[derive(Debug)]
-pub struct WriteHalf(unix::OwnedWriteHalf);
+pub struct WriteHalf {
+    half: unix::OwnedWriteHalf,
+    // How much of the buffer being written has reached the socket already. Kept here and not in
+    // the future, so that a write that is dropped half-way and then retried (the connection retries
+    // with the same bytes at the start of its buffer) carries on instead of sending the beginning
+    // a second time.
+    written: usize,
+}
 
 impl socket::WriteHalf for WriteHalf {
     async fn write(&mut self, buf: &[u8]) -> Result<()> {
-        let mut pos = 0;
-
-        while pos < buf.len() {
-            let n = self.0.write(&buf[pos..]).await?;
-            pos += n;
+        while self.written < buf.len() {
+            let n = self.half.write(&buf[self.written..]).await?;
+            self.written += n;
         }
+        self.written = 0;
 
         Ok(())
     }
